@@ -27,6 +27,22 @@ NOTES = ("Every check: python3 run.py Cxx --tier quick|thorough. Lean theorems a
 NOT_APPLICABLE = {}
 
 CHECKS = {
+    "C04": {
+        "text": "Lean theorems over an abstract program (generic definitions with uses over their own and their nesting function's parameters, "
+                "seeds from non-generic code) and a transcription of the work-list instance collector (Scan + Finish + propagate with "
+                "per-package sets, cursors and ids): the collected set is exactly the least set closed under the program's uses "
+                "(collect_sound/complete/exact, termination as explicit hypothesis), ids are injective, positional and stable, the set is "
+                "independent of package and seed order, nest+own substitution composes; completeness without the LocalFree hypothesis is "
+                "refuted by a proved counterexample. Tied by programs generated from a model term (several packages, nested and mutually "
+                "recursive instantiations, local generic types, both import directions): GopherJS plain+minify vs native Go with "
+                "per-instance probes (zero value, type description, arithmetic width, dispatch, blocking, identity matrix), and the real "
+                "per-package instance sets with ids vs the Lean collect on the same use-graph.",
+        "note": "Not proved: termination of the collector, translation of bodies, instName, per-instance blocking analysis, faithfulness to "
+                "go/types.Instantiate and subst (ties only). 6 known findings: 5 compiler panics (explicit qualified instantiation in a "
+                "generic body, function-local types as type arguments / inside composite types, FindNestingFunc cross-FileSet positions) and "
+                "a conflation of same-named local types across packages.",
+        "technique": "Lean 4 proof (work-list invariant; model = least fixed point) + model-first program generation + differential runs + instance-set comparison",
+    },
     "C17": {
         "text": "Lean theorems, one per class of place where a runtime-chosen iteration order could reach the output: sorting erases any "
                 "permutation (sort_perm_invariant, for total antisymmetric orders; instance for sort.Strings), commuting per-key updates "
